@@ -158,6 +158,10 @@ def checkInfer (op : String) (args res : List String) : Verdict :=
         | _, _, _ => .skip "parse"
       | _, _ => .skip "parse"
     | _, _, _, _, _, _ => .skip "parse"
+  | "fmout", [e], [e', c] =>
+    if c ≠ "1" then .viol "inf/fm/out-context" "the resolvent object does not carry the context of the inputs"
+    else if e ≠ e' then .viol "inf/fm/out-external" s!"external mark of the output changed from {e} to {e'}"
+    else .ok s!"inf/fmout/{e}"
   | _, _, _ => .skip s!"unknown inf op {op}"
 
 end LP.Driver
